@@ -302,6 +302,12 @@ Theorem C20_syn_div_exact : forall p a b q, 2 <= a -> b <> zero -> length q + a 
   = Ok ((q ++ repeat zero (length p - a - length q)) ++ repeat zero a, repeat zero a).
 Proof. exact (syn_div_exact_gen O L). Qed.
 
+(* the same with the crate's own product and the divisor as a list: syn_div (mul q [-b,0,..,0,1]) a b = q *)
+Theorem C20_syn_div_mul_exact : forall q a b p, 2 <= a -> b <> zero -> q <> [] ->
+  mul O q (xa_minus_b O a b) = Ok p ->
+  syn_div_in_place_full O p a b = Ok (q ++ repeat zero a, repeat zero a).
+Proof. exact (syn_div_mul_exact O L). Qed.
+
 End C20.
 
 Print Assumptions C20_eval_horner.
@@ -350,6 +356,7 @@ Print Assumptions C20_divmod_unique.
 Print Assumptions C20_div_exact.
 Print Assumptions C20_div_mul_exact.
 Print Assumptions C20_syn_div_exact.
+Print Assumptions C20_syn_div_mul_exact.
 
 (* ---------------------------------------------------------------- non-vacuity *)
 (* the hypothesis `FLaws O` is satisfiable: GF(7) *)
